@@ -204,11 +204,11 @@ theorem invertList_good (PIC : ParsedItemsCoherent) : ∀ (ms rs : List M), GL l
     exact GL.cons (invert_good PIC m x hg.head h1) (invertList_good PIC ms xs hg.tail h2)
 end
 
-/-! ### `only`, `exclude` -/
+/-! ### `only`, `exclude` — for any leaf predicate closed under the merge -/
 
 mutual
-theorem only_good (MC : MergeCoherent) (names : List String) : ∀ (a r : M), M.Good leafCoherent a →
-    M.only names a = .ok r → M.Good leafCoherent r
+theorem only_goodG {G : Leaf → Prop} (MC : MergeClosed G) (names : List String) : ∀ (a r : M), M.Good G a →
+    M.only names a = .ok r → M.Good G r
   | .any, r, _, h => by simp [M.only] at h; subst h; simp
   | .empty, r, _, h => by simp [M.only] at h; subst h; simp
   | .leaf l, r, hg, h => by
@@ -219,25 +219,25 @@ theorem only_good (MC : MergeCoherent) (names : List String) : ∀ (a r : M), M.
   | .multi ms, r, hg, h => by
     simp only [M.only] at h
     obtain ⟨xs, h1, h2⟩ := bind_ok.1 h
-    exact (gAt MC defaultFuel).mOf [] xs r (onlyList_good MC names ms xs (GL.of_multi hg) h1) h2
+    exact (gAt MC defaultFuel).mOf [] xs r (onlyList_goodG MC names ms xs (GL.of_multi hg) h1) h2
   | .union ms, r, hg, h => by
     simp only [M.only] at h
     obtain ⟨xs, h1, h2⟩ := bind_ok.1 h
-    exact (gAt MC defaultFuel).uOf [] xs r (onlyList_good MC names ms xs (GL.of_union hg) h1) h2
-theorem onlyList_good (MC : MergeCoherent) (names : List String) : ∀ (ms rs : List M), GL leafCoherent ms →
-    M.onlyList names ms = .ok rs → GL leafCoherent rs
+    exact (gAt MC defaultFuel).uOf [] xs r (onlyList_goodG MC names ms xs (GL.of_union hg) h1) h2
+theorem onlyList_goodG {G : Leaf → Prop} (MC : MergeClosed G) (names : List String) : ∀ (ms rs : List M), GL G ms →
+    M.onlyList names ms = .ok rs → GL G rs
   | [], rs, _, h => by simp [M.onlyList] at h; subst h; exact GL.nil
   | m :: ms, rs, hg, h => by
     simp only [M.onlyList] at h
     obtain ⟨x, h1, h⟩ := bind_ok.1 h
     obtain ⟨xs, h2, h3⟩ := bind_ok.1 h
     rw [pure_ok] at h3; subst h3
-    exact GL.cons (only_good MC names m x hg.head h1) (onlyList_good MC names ms xs hg.tail h2)
+    exact GL.cons (only_goodG MC names m x hg.head h1) (onlyList_goodG MC names ms xs hg.tail h2)
 end
 
 mutual
-theorem exclude_good (MC : MergeCoherent) (name : String) : ∀ (a r : M), M.Good leafCoherent a →
-    M.exclude name a = .ok r → M.Good leafCoherent r
+theorem exclude_goodG {G : Leaf → Prop} (MC : MergeClosed G) (name : String) : ∀ (a r : M), M.Good G a →
+    M.exclude name a = .ok r → M.Good G r
   | .any, r, _, h => by simp [M.exclude] at h; subst h; simp
   | .empty, r, _, h => by simp [M.exclude] at h; subst h; simp
   | .leaf l, r, hg, h => by
@@ -248,25 +248,33 @@ theorem exclude_good (MC : MergeCoherent) (name : String) : ∀ (a r : M), M.Goo
   | .multi ms, r, hg, h => by
     simp only [M.exclude] at h
     obtain ⟨xs, h1, h2⟩ := bind_ok.1 h
-    exact (gAt MC defaultFuel).interF [] _ r ((excludeList_good MC name ms xs (GL.of_multi hg) h1).filter _) h2
+    exact (gAt MC defaultFuel).interF [] _ r ((excludeList_goodG MC name ms xs (GL.of_multi hg) h1).filter _) h2
   | .union ms, r, hg, h => by
     simp only [M.exclude] at h
     obtain ⟨xs, h1, h2⟩ := bind_ok.1 h
     split at h2
     · rw [pure_ok] at h2; subst h2; simp
-    · exact (gAt MC defaultFuel).uniF [] xs r (excludeList_good MC name ms xs (GL.of_union hg) h1) h2
-theorem excludeList_good (MC : MergeCoherent) (name : String) : ∀ (ms rs : List M), GL leafCoherent ms →
-    M.excludeList name ms = .ok rs → GL leafCoherent rs
+    · exact (gAt MC defaultFuel).uniF [] xs r (excludeList_goodG MC name ms xs (GL.of_union hg) h1) h2
+theorem excludeList_goodG {G : Leaf → Prop} (MC : MergeClosed G) (name : String) : ∀ (ms rs : List M), GL G ms →
+    M.excludeList name ms = .ok rs → GL G rs
   | [], rs, _, h => by simp [M.excludeList] at h; subst h; exact GL.nil
   | m :: ms, rs, hg, h => by
     simp only [M.excludeList] at h
     split at h
-    · exact excludeList_good MC name ms rs hg.tail h
+    · exact excludeList_goodG MC name ms rs hg.tail h
     · obtain ⟨x, h1, h⟩ := bind_ok.1 h
       obtain ⟨xs, h2, h3⟩ := bind_ok.1 h
       rw [pure_ok] at h3; subst h3
-      exact GL.cons (exclude_good MC name m x hg.head h1) (excludeList_good MC name ms xs hg.tail h2)
+      exact GL.cons (exclude_goodG MC name m x hg.head h1) (excludeList_goodG MC name ms xs hg.tail h2)
 end
+
+/-! ### `only`, `exclude` on coherent markers -/
+
+theorem only_good (MC : MergeCoherent) (names : List String) (a r : M) (ha : M.Good leafCoherent a)
+    (h : M.only names a = .ok r) : M.Good leafCoherent r := only_goodG MC names a r ha h
+
+theorem exclude_good (MC : MergeCoherent) (name : String) (a r : M) (ha : M.Good leafCoherent a)
+    (h : M.exclude name a = .ok r) : M.Good leafCoherent r := exclude_goodG MC name a r ha h
 
 /-! ### `reduce_by_python_constraint` -/
 
